@@ -514,3 +514,51 @@ M('C20-lua-skips-comments', 'C20', F_P8,
   "                        continue\n"
   "                    if not line.endswith(b'\\n'):\n",
   expect='R-C20-kinds')
+
+# ---------------------------------------------------------------- C08 ----
+M('C08-revert-fix12-fence', 'C08', F_PARSER,
+  "                finally:\n                    self._max_pos = outer_max_pos\n",
+  "                finally:\n                    self._max_pos = None\n",
+  expect='R-C08-fence')
+M('C08-end-is-start', 'C08', F_PARSER,
+  "        return FunctionBody(namelist, dots, block, start=pos, end=self._pos)\n",
+  "        return FunctionBody(namelist, dots, block, start=pos, end=pos)\n",
+  expect='R-C08-nodes')
+M('C08-drop-concat-assign', 'C08', F_PARSER,
+  "                         self._accept(lexer.TokSymbol(b'%=')) or\n"
+  "                         self._accept(lexer.TokSymbol(b'..=')))\n",
+  "                         self._accept(lexer.TokSymbol(b'%=')))\n",
+  expect='R-C08-inventory')
+M('C08-no-reset-before-call', 'C08', F_PARSER,
+  "                return StatAssignment(varlist, assign_op, explist,\n"
+  "                                      start=pos, end=self._pos)\n"
+  "        self._pos = pos\n",
+  "                return StatAssignment(varlist, assign_op, explist,\n"
+  "                                      start=pos, end=self._pos)\n",
+  expect='R-C08-alternatives')
+M('C08-accept-ignores-fence', 'C08', F_PARSER,
+  "            cur_tok.matches(tok_pattern) and\n"
+  "                (self._max_pos is None or self._pos < self._max_pos)):\n",
+  "                cur_tok.matches(tok_pattern)):\n", expect='R-C08-fence')
+M('C08-drop-binop', 'C08', F_PARSER,
+  "    b'&', b'|', b'^^', b'<<', b'>>', b'>>>', b'<<>', b'>><', b'\\\\',",
+  "    b'&', b'|', b'^^', b'<<', b'>>', b'>>>', b'<<>', b'\\\\',",
+  expect='R-C08-inventory')
+M('C08-field-no-reset', 'C08', F_PARSER,
+  "            return FieldNamedKey(key_name, exp, start=pos, end=self._pos)\n"
+  "        self._pos = pos\n",
+  "            return FieldNamedKey(key_name, exp, start=pos, end=self._pos)\n",
+  expect='R-C08-alternatives')
+M('C08-fence-outside-try', 'C08', F_PARSER,
+  "                outer_max_pos = self._max_pos\n"
+  "                try:\n"
+  "                    self._max_pos = then_end_pos\n",
+  "                outer_max_pos = self._max_pos\n"
+  "                self._max_pos = then_end_pos\n"
+  "                try:\n", expect='R-C08-fence')
+M('C08-n-rename-pos', 'C08', F_PARSER,
+  "        pos = self._pos\n        if self._accept(lexer.TokKeyword(b'break')) is not None:\n"
+  "            return StatBreak(start=pos, end=self._pos)\n",
+  "        pos = self._pos\n        if self._accept(lexer.TokKeyword(b'break')) is not None:\n"
+  "            endp = self._pos\n"
+  "            return StatBreak(start=pos, end=self._pos)\n", kind='neutral')
